@@ -51,12 +51,16 @@ Stateless(e) ==
          ELSE IF e.dev > 8 * e.n + 8 THEN "drift_unit"
          ELSE IF ~e.spos THEN "drift_scale" ELSE "ok"
     [] e.op = "cumfold" ->   \* cumprod / cummul: position i holds x_i ... x_1 (left) or x_1 ... x_i (right)
+         \* Folds(k) = <<fold_1, .., fold_k>>.  The previous prefix is bound through a set comprehension: operator arguments
+         \* and LET definitions are lazy in TLC, and a recursive fold whose previous value is re-evaluated at every use
+         \* inside Mul is exponential in the length (the thorough tier, L = 16, did not finish in an hour).
          LET n == Len(e.xs)
-             Fold[i \in 1..n] == IF i = 1 THEN Decode(ty, e.xs[1])
-                                 ELSE IF e.left THEN Mul(Decode(ty, e.xs[i]), Fold[i - 1])
-                                 ELSE Mul(Fold[i - 1], Decode(ty, e.xs[i])) IN
+             RECURSIVE Folds(_)
+             Folds(k) == IF k = 1 THEN <<Decode(ty, e.xs[1])>>
+                         ELSE CHOOSE r \in { Append(f, IF e.left THEN Mul(x, f[k - 1]) ELSE Mul(f[k - 1], x)) :
+                                               f \in {Folds(k - 1)}, x \in {Decode(ty, e.xs[k])} } : TRUE IN
          IF Len(e.outs) # n THEN "cumfold_length"
-         ELSE IF \E i \in 1..n : ~SameElem(Decode(ty, e.outs[i]), Fold[i]) THEN "cumfold"
+         ELSE IF \E F \in {Folds(n)} : \E i \in 1..n : ~SameElem(Decode(ty, e.outs[i]), F[i]) THEN "cumfold"
          ELSE "ok"
     [] e.op = "algadd" -> IF e.out = VAdd(e.x, e.a) THEN "ok" ELSE "algadd"
     [] OTHER -> "unknown_op"
